@@ -425,6 +425,30 @@ mod obs {
         })
     }
 
+    std::thread_local! {
+        static CHALLENGES: std::cell::RefCell<Option<alloc::vec::Vec<(&'static str, dusk_bls12_381::BlsScalar)>>> =
+            const { std::cell::RefCell::new(None) };
+    }
+
+    /// Start recording the challenges the verifier derives on this thread.
+    pub fn start_challenge_log() {
+        CHALLENGES.with(|c| *c.borrow_mut() = Some(alloc::vec::Vec::new()));
+    }
+
+    /// Stop recording and return what was recorded since the start.
+    pub fn take_challenge_log(
+    ) -> alloc::vec::Vec<(&'static str, dusk_bls12_381::BlsScalar)> {
+        CHALLENGES.with(|c| c.borrow_mut().take().unwrap_or_default())
+    }
+
+    pub fn record_challenge(name: &'static str, value: &dusk_bls12_381::BlsScalar) {
+        CHALLENGES.with(|c| {
+            if let Some(log) = c.borrow_mut().as_mut() {
+                log.push((name, *value));
+            }
+        });
+    }
+
     pub type Observer = dyn Fn(&'static str, usize) + Send + Sync + 'static;
 
     static OBSERVER: OnceLock<Box<Observer>> = OnceLock::new();
@@ -451,8 +475,9 @@ mod obs {
 
 #[cfg(feature = "std")]
 pub use obs::{
-    force_prove, forged_witness, install_observer, sched_point,
-    set_force_prove, set_forged_witnesses, set_observing,
+    force_prove, forged_witness, install_observer, record_challenge,
+    sched_point, set_force_prove, set_forged_witnesses, set_observing,
+    start_challenge_log, take_challenge_log,
 };
 
 #[cfg(not(feature = "std"))]
@@ -463,6 +488,10 @@ pub fn force_prove() -> bool {
 #[cfg(not(feature = "std"))]
 #[inline]
 pub fn sched_point(_site: &'static str, _item: usize) {}
+
+#[cfg(not(feature = "std"))]
+#[inline]
+pub fn record_challenge(_name: &'static str, _value: &BlsScalar) {}
 
 #[cfg(not(feature = "std"))]
 #[inline]
